@@ -37,10 +37,12 @@ ASSUMPTIONS = [
     'find_state_change is only called on ranges that contain at least one change (the statement defines no answer otherwise).',
     'API helpers: vote/origination operations are never placed at the first or last level of the slice, where the helper\'s own range convention '
     '(head-1, "ballots are empty at the last block") makes the expected answer ambiguous.',
+    'A definitive request failure (retry budget exhausted, permanent 5xx, connection error) during a search may abort it with an error; '
+    'only a *returned* result is judged, and it must be exact. Not injected for find_origination, whose getter maps any RpcError to "absent" by design.',
     'BlockSliceQuery.find_proposal_injection is excluded: it calls a non-existent OperationListListQuery.find_votes after the search returns '
     '(a defect outside this statement).',
 ]
-EXPECTED_PROBES = ['slice_reused_for_second_search', 'change_at_last_plus_1', 'change_at_head', 'adjacent_changes', 'step_exceeds_range', 'no_change_in_range', 'fault_during_search',
+EXPECTED_PROBES = ['search_aborted_by_definitive_failure', 'slice_reused_for_second_search', 'change_at_last_plus_1', 'change_at_head', 'adjacent_changes', 'step_exceeds_range', 'no_change_in_range', 'fault_during_search',
                    'chain_grew_during_search']
 
 PKH = 'tz1VSUr8wwNhLAzempoch5d6hLRiTh8Cjcjb'
@@ -102,6 +104,13 @@ def gen(seed, tier):
                 [{'f': 'transient', 'n': rng.randint(1, 5), 'status': rng.choice([500, 502, 503])}, {'f': 'preval', 'n': rng.randint(1, 5)},
                  {'f': 'latency', 'ms': rng.choice([10, 3000, 20000])}]
             )
+    if kind != 'api:origination' and rng.random() < 0.2:
+        # one definitive failure (retry budget exhausted, permanent 5xx, connection error) somewhere in the search: the search may
+        # give up with an error, but if it returns a result the result must still be exact
+        faults = dict(faults)
+        ordinal = 200 + rng.randint(0, 30)  # far from the transient slots; re-based below to an early request
+        faults[str(ordinal)] = rng.choice([{'f': 'reject', 'how': 'perm'}, {'f': 'reject', 'how': 'exc'}, {'f': 'transient', 'n': 6, 'status': 503}])
+        faults['hard_at'] = rng.randint(1, 40)
     baker = rng.random() < 0.4
     slice_mode = 'closed'
     if kind in ('api:ballots', 'api:upvotes') and rng.random() < 0.4:
@@ -234,8 +243,19 @@ def execute(scn, want_log=False):
     node.add_account(PKH, counter=10)
     hist, expected_ops, kt = build_chain(node, scn)
     tr = core.Transport(sim, node.handle, latency_ms=scn['latency_ms'], max_requests=6000)
-    faults = scn['faults']
-    tr.fault_for = lambda req: faults.get(str(req['i']))
+    faults = {k: v for k, v in scn['faults'].items() if k != 'hard_at'}
+    hard_at = scn['faults'].get('hard_at')
+    hard = next((v for k, v in faults.items() if int(k) >= 200), None) if hard_at else None
+    faults = {k: v for k, v in faults.items() if int(k) < 200}
+    hard_state = {'fired': False}
+
+    def fault_for(req):
+        if hard is not None and not hard_state['fired'] and req['i'] >= hard_at and str(req['i']) not in faults:
+            hard_state['fired'] = True
+            return hard
+        return faults.get(str(req['i']))
+
+    tr.fault_for = fault_for
     kind, what = scn['kind'].split(':')
     head, last, step = scn['head'], scn['last'], scn['step']
     violations = []
@@ -328,6 +348,8 @@ def execute(scn, want_log=False):
         bump('fault_during_search')
     if node.head['level'] > level0:
         bump('chain_grew_during_search')
+    if hard_state['fired'] and err is None:
+        bump('returned_despite_definitive_failure')
 
     # ---- judge
     judged = 1
@@ -338,6 +360,10 @@ def execute(scn, want_log=False):
 
     if isinstance(err, core.SimCapExceeded):
         violate('termination', 'no-termination', cap=str(err))
+    elif err is not None and hard_state['fired']:
+        # a definitive failure was injected and the search gave up with an error: acceptable, nothing was reported
+        bump('search_aborted_by_definitive_failure')
+        judged = 0
     elif err is not None:
         violate('raises', f'raises:{type(err).__name__}', error=str(err)[:300])
     elif kind in ('changes', 'walk'):
@@ -410,8 +436,14 @@ def simplify(scn):
         c['faults'] = {}
         yield c
         for k in list(scn['faults']):
+            if k == 'hard_at' or int(k) >= 200:
+                continue
             c = cp()
             del c['faults'][k]
+            yield c
+        if 'hard_at' in scn['faults']:
+            c = cp()
+            c['faults'] = {k: v for k, v in scn['faults'].items() if k != 'hard_at' and int(k) < 200}
             yield c
     if scn['baker']:
         c = cp()
@@ -475,8 +507,10 @@ def simplify(scn):
 
 
 def valid(scn):
-    ords = sorted(int(k) for k in scn['faults'])
-    if any(b - a < 7 for a, b in zip(ords, ords[1:])) or any(d.get('n', 0) > 5 for d in scn['faults'].values()):
+    ords = sorted(int(k) for k in scn['faults'] if k != 'hard_at' and int(k) < 200)
+    if any(b - a < 7 for a, b in zip(ords, ords[1:])) or any(d.get('n', 0) > 5 for k, d in scn['faults'].items() if k != 'hard_at' and int(k) < 200):
+        return False
+    if 'hard_at' in scn['faults'] and scn['kind'] == 'api:origination':
         return False
     api = scn['kind'].startswith('api:')
     orig = scn['kind'] == 'api:origination'
